@@ -102,7 +102,7 @@ def main():
         t0 = time.time()
         rec = {"id": mid, "desc": desc, "file": path, "checks": {}, "status": "ok"}
         for c in checks:
-            r = sh(f"cd {SCR}/verif && VERIF_WALL_CAP=120 ./check {c} quick", timeout=1500)
+            r = sh(f"cd {SCR}/verif && VERIF_WALL_CAP=300 ./check {c} quick", timeout=1500)
             keys = sorted(set(re.findall(r"^violation: (\S+)", r.stdout, re.M)))
             if r.returncode == 2:
                 rec["status"] = "does-not-compile-or-harness-error"
